@@ -46,6 +46,10 @@ func main() {
 		busyChild(n, sd)
 		return
 	}
+	if len(os.Args) > 1 && os.Args[1] == "noisechild" {
+		noiseChild()
+		return
+	}
 	if len(os.Args) > 1 && os.Args[1] == "farexpirychild" {
 		farExpiryChild()
 		return
@@ -73,6 +77,8 @@ func main() {
 			runChurn(res)
 		case "busy":
 			cases = append(cases, runBusy(res, int(c.D), a.Seed)...)
+		case "noise":
+			runNoise(res)
 		case "farexpiry":
 			if c := runFarExpiry(res); c != nil {
 				cases = append(cases, *c)
@@ -188,7 +194,7 @@ func main() {
 			}
 			// then, side by side: a viewer asking for updates in bursts, and last-second joins
 			var cwg sync.WaitGroup
-			for _, f := range []func(*lib.Result) *Case{runUpdates, runLastSecond, runFarExpiry} {
+			for _, f := range []func(*lib.Result) *Case{runUpdates, runLastSecond, runFarExpiry, runNoise} {
 				cwg.Add(1)
 				go func(f func(*lib.Result) *Case) {
 					defer cwg.Done()
@@ -257,6 +263,8 @@ func main() {
 			coq[i] = runRateCase(c)
 		case "traffic":
 			coq[i] = runTrafficCase(c)
+		case "rest":
+			coq[i] = runRestCase(c)
 		default:
 			fmt.Fprintln(os.Stderr, "unknown case kind", c.Kind)
 			os.Exit(2)
